@@ -8,12 +8,16 @@ RULE = ("TBSCertificates from crypto/x509.CreateCertificate (seeded random templ
         "malformed variants per base and 60 random one/two-byte damages; seeded fuzzers for validity time strings, base-128 arcs and raw tag/length headers; "
         "a sweep of one filler extension's size across the 127/128, 255/256 and 65535/65536 length boundaries; the concrete TBSCertificates of the Lean examples; "
         "SCT lists (random, boundary 65335/65336/65535, RFC-valid lists embedded by hand, malformed). "
+        "every hand-made deviation and every random damage is applied identically to precertificate, final certificate and plain content and "
+        "the route equality is checked for every accepted input, canonical or not; pre-issuers with full / issuer+serial / key-id AKI forms and "
+        "ten extKeyUsage forms; "
         "non-trivial = distinct op lines whose answer is `ok …` or `1` (the success path), counted by the orchestrator")
 TRUSTED = ["Go's time.Parse/Format calendar arithmetic inside asn1 (mirrored by clockOk/zoneOk, compared on every generated time)",
            "asn1.ObjectIdentifier.Equal on parsed arcs = equality of canonical contents octets",
            "crypto primitives (signing the re-assembled certificates, SHA-256 of the issuer key)",
            "tls.Marshal of MerkleTreeLeaf (C04)"]
-ASSUMPTIONS = ["the pre-issuer handed to BuildPrecertTBS comes from x509.ParseCertificate (RawIssuer is one TLV)",
+ASSUMPTIONS = ["the normal form the fork writes for an accepted TBSCertificate is well-formed (evaluated for every traced input by the driver; unproved, false within 2 bytes of the 2^31 limit)",
+               "the pre-issuer handed to BuildPrecertTBS comes from x509.ParseCertificate (RawIssuer is one TLV)",
                "TBSCertificates shorter than 2^31 bytes (the fork refuses longer lengths; the model carries the same bound)"]
 
 def is_nontrivial(op, impl):
